@@ -214,7 +214,65 @@ def monotone_expr(fi, v):
 
 
 # ---------------------------------------------------------------------------- allocation
+def semantic_add_variable_group(prog):
+    """fold VariablesManager._add_variable_group over stand-in managers: a group that starts at or below the current count is refused
+    with ValueError and leaves everything as it was; any other group is registered (the same object, appended) and the count becomes
+    max(count, last id); an empty group is registered and changes no count"""
+    import types
+    from ..fold import Folder, Raised
+    fi = prog.func(VARS, "VariablesManager._add_variable_group")
+
+    class Fm:
+        def __init__(self, n):
+            self.n = n
+
+        def number_of_variables(self):
+            return self.n
+
+        def update_variable_number(self, v):
+            self.n = max(self.n, v)
+    cnt = 0
+    for n in (0, 1, 4):
+        for first in range(0, n + 4):
+            for size in (0, 1, 3):
+                vg = list(range(first, first + size))
+                old = ["g0"]
+                obj = types.SimpleNamespace(_groups=list(old), _formula=Fm(n))
+                what = "_add_variable_group(ids %s) on a formula with %d variables" % (vg, n)
+                f = Folder(env={})
+                try:
+                    f.call_function(fi.node, [obj, vg], {})
+                    outcome = "ok"
+                except Raised as r:
+                    outcome = r.cls.split("(")[0]
+                except Unknown as e:
+                    return None, "cannot fold _add_variable_group: %s" % e
+                if size and first <= n:
+                    if outcome != "ValueError":
+                        return False, "%s is accepted (%s): identifiers already in use would be handed out twice" % (what, outcome)
+                    if obj._groups != old or obj._formula.n != n:
+                        return False, "%s is refused but leaves groups %s / count %d" % (what, obj._groups, obj._formula.n)
+                else:
+                    if outcome != "ok":
+                        return False, "%s raises %s" % (what, outcome)
+                    if len(obj._groups) != 2 or obj._groups[0] != "g0" or obj._groups[1] is not vg:
+                        return False, "%s leaves the group list %s; the group itself must be appended once" % (what, obj._groups)
+                    want = max(n, vg[-1]) if size else n
+                    if obj._formula.n != want:
+                        return False, "%s leaves the count at %d; %d expected" % (what, obj._formula.n, want)
+                cnt += 1
+    return True, "%d (count, group) instances folded" % cnt
+
+
 def check_alloc_guard(R, prog):
+    from ._shared import with_semantics
+    fi = prog.func(VARS, "VariablesManager._add_variable_group")
+    with_semantics(R, R.prop, lambda T: _shape_alloc_guard(T, prog), semantic_add_variable_group(prog),
+                   "_add_variable_group refuses overlapping identifiers and raises the count to the last id", fi, rule="ALLOC-GUARD",
+                   scope=lambda f: (f.function or "").endswith("_add_variable_group"))
+
+
+def _shape_alloc_guard(R, prog):
     fi = prog.func(VARS, "VariablesManager._add_variable_group")
     vg = fi.params[1]
     cfg = CFG(fi.node)
